@@ -75,6 +75,39 @@ pub fn run(tier: Tier) -> i32 {
             ctx.sample(json!({"input": inp.label, "len": inp.bytes.len(), "graph_states": g.states, "graph_edges": g.edges, "finish_probes": g.finish_probes, "max_lag_of_finish_output_behind_determined_bytes": g.max_lag_seen}));
         }
     });
+    // adversarially trained long symbols (a symbol spanning up to 13-17 input bytes): every chunking of the tail
+    {
+        let reps = tier.pick(110usize, 180usize);
+        let (prog, first) = corpus::adversarial_program(reps);
+        let t1 = Instant::now();
+        let mut jobs = Vec::new();
+        for (marker, sized) in [(true, false), (false, true)] {
+            let it = corpus::Item { name: format!("adversarial-{}", reps), lc: 0, lp: 0, pb: 0, dict: 1 << 20, prog: prog.clone(), marker, sized };
+            for k in [corpus::OptKind::Header, corpus::OptKind::ProvidedSome] {
+                if let Some(b) = it.build(k) {
+                    let start = b.table[first - 1].0.saturating_sub(25);
+                    let mut opts = b.opts;
+                    opts.allow_incomplete = true;
+                    for bytewise in [false, true] {
+                        let init: Vec<u32> = if bytewise { vec![1; start] } else { stream_graph::write_all_history(&b.bytes, &opts, start) };
+                        jobs.push((format!("{} [{:?}] marker={} prefix {}; longest symbol {} bytes", it.name, k, marker, if bytewise { "bytewise" } else { "at once" }, b.max_symbol_bytes), b.bytes.clone(), opts, init, Mode::Prefix { full: b.expect.clone(), table: b.table.clone(), header_len: b.header_len }));
+                    }
+                }
+            }
+        }
+        par_for(jobs.len() as u64, |i| {
+            let (label, bytes, opts, init, mode) = &jobs[i as usize];
+            let g = stream_graph::explore_from(&ctx, bytes, opts, mode, label, init);
+            ctx.eval(g.finish_probes);
+            ctx.nontriv(1);
+            let mut a = agg.lock().unwrap();
+            a.0 += g.states;
+            a.1 += g.edges;
+            a.2 += g.finish_probes;
+            a.3 = a.3.max(g.max_lag_seen);
+        });
+        ctx.scope_done(&format!("adversarial-long-symbol-tails/{}-graphs", jobs.len()), jobs.len() as u64, t1, "every chunking of the tail after a fixed prefix");
+    }
     let a = agg.lock().unwrap();
     ctx.set_extra("finish_probes", json!(a.2));
     ctx.set_extra("max_lag_seen_output_bytes", json!(a.3));
